@@ -892,6 +892,8 @@ pub fn run_c03(ctx: &Ctx) -> Report {
   };
   run_cases(ctx, "C03", cases, &mut report);
   verify_scenarios(ctx, &mut report);
+  report.rule.push_str("; which directory is judged: --content / --base-directory / beside the torrent / standard input, each spelled with `.`, `..`, doubled and trailing separators, relative and absolute, names with separators, a decoy at every root not selected (announced root against the documented rule and against Imdlv.Paths.contentRoot)");
+  super::paths::run(ctx, "C03", &mut report);
   report
 }
 
@@ -1154,6 +1156,8 @@ pub fn run_c02(ctx: &Ctx) -> Report {
   for r in results {
     report.merge(r);
   }
+  report.rule.push_str("; default locations under every spelling of the input (`.`, `..`, `x/..` detours, doubled and trailing separators, relative and absolute, from three working directories): the torrent appears beside the resolved input and nowhere else, verify without --content finds its way back (against Imdlv.Paths.createDefaultOutput / default_locations_inverse)");
+  super::paths::run(ctx, "C02", &mut report);
   // a wide tree: over a thousand files, every one of them shallow (limits are per path, not per torrent)
   if ctx.replay.is_none() || super::replay_cases(ctx).map(|rc| rc.iter().any(|v| v.get("wide_tree").is_some())).unwrap_or(false) {
     let sb = Sandbox::new(&ctx.work, "c02w");
